@@ -30,6 +30,13 @@ theorem runSched_reach {σ A : Type} (act : A → σ → Option σ) (cands : σ 
       exact ih _ _ (Reach.step a h ha)
     · exact h
 
+theorem flatMap_single {α β : Type} (f : α → List β) (g : α → β) (h : ∀ x, f x = [g x]) :
+    ∀ xs : List α, xs.flatMap f = xs.map g := by
+  intro xs
+  induction xs with
+  | nil => rfl
+  | cons x rest ih => simp [List.flatMap_cons, h, ih]
+
 /-! ## Queue -/
 
 structure QInv {α : Type} (xs : List α) (s : Q α) : Prop where
